@@ -154,6 +154,8 @@ func (P *Program) registerIntrinsics() {
 	P.registerStd()
 	P.registerTime()
 	P.registerRepoModels()
+	P.registerSQL()
+	P.registerVHDB()
 }
 
 func (P *Program) registerVH() {
@@ -247,6 +249,7 @@ func (P *Program) registerVH() {
 	P.reg(VH+".Implies", func(fr *frame, args []value) value { return fr.in.C.Implies(tm(args[0]), tm(args[1])) })
 	P.reg(VH+".Iff", func(fr *frame, args []value) value { return fr.in.C.Eq(tm(args[0]), tm(args[1])) })
 	P.reg(VH+".IteI32", func(fr *frame, args []value) value { return fr.in.C.Ite(tm(args[0]), tm(args[1]), tm(args[2])) })
+	P.reg(VH+".IteU8", func(fr *frame, args []value) value { return fr.in.C.Ite(tm(args[0]), tm(args[1]), tm(args[2])) })
 	P.reg(VH+".IteI64", func(fr *frame, args []value) value { return fr.in.C.Ite(tm(args[0]), tm(args[1]), tm(args[2])) })
 	P.reg(VH+".IteBig", func(fr *frame, args []value) value {
 		in := fr.in
